@@ -5,7 +5,7 @@
     functions and the *shape* of the handshake functions and of the two
     handler goroutines as values of the types below. *)
 
-From Coq Require Import ZArith List String Bool.
+From Coq Require Import String ZArith List Bool.
 Import ListNotations.
 Open Scope Z_scope.
 
@@ -18,7 +18,7 @@ Inductive serializer := SerNone | SerJSON | SerMsgpack | SerCBOR.
     ([AcceptRawSocket] / [ConnectRawSocketPeer]) then closes the connection.
     [HsPeer w ser s r]: it returned [newRawSocketPeer(conn, ser, _, s, r, _)]. *)
 Inductive hs_result :=
-| HsErr (written : list (list Z)) (err : string)
+| HsErr (written : list (list Z)) (err : String.string)
 | HsPeer (written : list (list Z)) (ser : serializer) (sendLimit recvLimit : Z).
 
 (** ** Handler goroutine shapes *)
@@ -29,8 +29,8 @@ Inductive part := PHeader | PPayload.
     test, in order.  [WWrite ps] is ONE call of [conn.Write] whose argument is
     the concatenation of [ps]. *)
 Inductive wop :=
-| WLock (m : string)
-| WUnlock (m : string)
+| WLock (m : String.string)
+| WUnlock (m : String.string)
 | WWrite (ps : list part).
 
 (** what one [case] of the frame-type switch of [recvHandler] does, in order.
@@ -45,8 +45,8 @@ Inductive rop :=
 | RWrite (ps : list part)         (* one conn.Write *)
 | REcho (n : Z)                   (* io.CopyN(conn, conn, n) *)
 | RDiscard (n : Z)                (* io.CopyN(io.Discard, conn, n) *)
-| RLock (m : string)
-| RUnlock (m : string)
+| RLock (m : String.string)
+| RUnlock (m : String.string)
 | RContinue                       (* continue MsgLoop *)
 | RCloseReturn.                   (* conn.Close(); return  (or break out of the loop) *)
 
